@@ -156,6 +156,9 @@ CALL = {
     # same item objects" and the discipline applies; if it does not, the result is an unrelated new list
     "map_identity": lambda x, r, ev: x.map(lambda it: it),
     "map_tag": lambda x, r, ev: x.map(lambda it: {**it, "t": 1}),
+    # group_by is not named by the statement either; same treatment: returning the receiver itself is a plain use of
+    # it, returning another list that holds the receiver's item objects makes the receiver an ancestor of that list
+    "group_by": lambda x, r, ev: x.group_by("k"),
     # in-place (statement: modify, modify_if, rename, select, unselect, fill_missing_keys, inner_join, left_join)
     "modify": lambda x, r, ev: x.modify(a=lambda it: 5),
     "modify_if": lambda x, r, ev: x.modify_if(lambda it: it["k"] == 1, a=lambda it: 6),
@@ -176,7 +179,7 @@ CALL = {
 SIMPLE_D = ("filter_fn", "filter_kv", "sort", "unique", "head", "head0", "tail", "slice", "copy", "reverse",
             "chain_filter_sort", "chain_slice_reverse")
 SIMPLE_E = ("modify", "modify_if", "modify_if_nested", "rename", "select", "unselect", "fill", "fill_kv")
-MAPS = ("map_identity", "map_tag")
+MAPS = ("map_identity", "map_tag", "group_by")
 USES = ("pluck", "to_string")
 # which method of the statement each op instantiates (for the reference model and reports)
 METHOD = {"filter_fn": "filter", "filter_kv": "filter", "modify_if_nested": "modify_if",
@@ -194,7 +197,7 @@ SOURCE = {
     "copy": "{x}.copy()", "reverse": "{x}.reverse()",
     "chain_filter_sort": "{x}.filter(lambda it: True).sort(k=-1)", "chain_slice_reverse": "{x}[0:].reverse()", "sample": "{x}.sample({n})  # random.sample answers {answer}",
     "semi_join": "{x}.semi_join({r}, 'k')", "anti_join": "{x}.anti_join({r}, 'k')",
-    "map_identity": "{x}.map(lambda it: it)", "map_tag": "{x}.map(lambda it: {{**it, 't': 1}})",
+    "map_identity": "{x}.map(lambda it: it)", "map_tag": "{x}.map(lambda it: {{**it, 't': 1}})", "group_by": "{x}.group_by('k')",
     "modify": "{x}.modify(a=lambda it: 5)", "modify_if": "{x}.modify_if(lambda it: it['k'] == 1, a=lambda it: 6)",
     "modify_if_nested": "{x}.modify_if(lambda it: isinstance(it.get('n'), Box) and len(it['n'].v) < 2, "
                         "n=lambda it: (it['n'].v.append(1), it['n'])[1])",
@@ -359,6 +362,8 @@ def step(w, ev):
     # ---- register the result ----------------------------------------------
     old = len(w.pool)
     items = None
+    if op in MAPS and out is recv:
+        kind = "U"   # the method handed back the receiver itself: nothing new exists, the call was a use of the receiver
     if kind != "U":
         if not isinstance(out, di.ListOfDicts) or not all(isinstance(o, dict) for o in out):
             w.dead = True
